@@ -48,6 +48,7 @@ the rules see:
   S26 flag variables      `if c: A; flag = True else: B; flag = False` ; REST(flag)  ->  REST moves into both branches
   S28 star calls          `a, b, c = E` ; `f(a, b, c)`  ->  `f(*E)`   (a, b, c used nowhere else)
   S30 while               `while c: B`  ->  `while True: if not c: break ; B`
+  S31 result variables    `if c: A ; x = e` ; `return x`  ->  `if c: A ; return e` ; `return x`
   S12 literal loops       `for x in (a, b): S(x)`  ->  `S(a)` ; `S(b)`   (at most four simple elements, no
                           `break`, `continue` only as leading guards, x not used afterwards)
 
@@ -293,6 +294,15 @@ class _Expr(ast.NodeTransformer):
             name = f.func.attr if isinstance(f.func, ast.Attribute) and isinstance(f.func.value, ast.Name) and f.func.value.id == "operator" else (
                 f.func.id if isinstance(f.func, ast.Name) else None)
             x = node.args[0]
+            if name == "attrgetter" and len(f.args) >= 2 and all(isinstance(a_, ast.Constant) and isinstance(a_.value, str) for a_ in f.args) and _simple(x):
+                elts = []
+                for a_ in f.args:
+                    cur2: ast.expr = copy.deepcopy(x)
+                    for part in a_.value.split("."):  # type: ignore[attr-defined]
+                        cur2 = ast.Attribute(value=cur2, attr=part, ctx=ast.Load())
+                    elts.append(cur2)
+                self.changed = True
+                return _loc(ast.Tuple(elts=elts, ctx=ast.Load()), node)
             if name == "attrgetter" and len(f.args) == 1 and isinstance(f.args[0], ast.Constant) and isinstance(f.args[0].value, str):
                 cur: ast.expr = x
                 for part in f.args[0].value.split("."):
@@ -588,6 +598,22 @@ def _effects_before(e: ast.AST, name: str) -> bool:
             return
         if isinstance(n, ast.Lambda):
             return
+        if isinstance(n, (ast.GeneratorExp, ast.ListComp, ast.SetComp, ast.DictComp)):
+            # the first iterable is evaluated first (and, for a generator expression, nothing else yet)
+            walk(n.generators[0].iter)
+            if found or isinstance(n, ast.GeneratorExp):
+                return
+            for c in ast.iter_child_nodes(n):
+                if c is not n.generators[0]:
+                    walk(c)
+                    if found:
+                        return
+            for c in ast.iter_child_nodes(n.generators[0]):
+                if c is not n.generators[0].iter:
+                    walk(c)
+                    if found:
+                        return
+            return
         for c in ast.iter_child_nodes(n):
             walk(c)
             if found:
@@ -731,6 +757,33 @@ class Canon:
                 bind = _loc(ast.Assign(targets=[ast.Name(id=target_w.target.id, ctx=ast.Store())], value=target_w.value), s)
                 inner = _loc(ast.If(test=inner_test, body=s.body, orelse=[]), s)
                 return [_loc(ast.If(test=outer_test, body=[bind, inner], orelse=[]), s)], 0
+        if (
+            isinstance(s, ast.If) and len(rest) == 1 and isinstance(rest[0], ast.Return) and isinstance(rest[0].value, ast.Name)
+            and ctx in ("func", "other")
+        ):
+            # S31 result variables: `if c: A ; x = e` ; `return x`  ->  `if c: A ; return e` ; `return x`
+            x = rest[0].value.id
+            changed31 = False
+
+            def sink(branch: List[ast.stmt]) -> None:
+                nonlocal changed31
+                if not branch:
+                    return
+                last = branch[-1]
+                if isinstance(last, ast.Assign) and _plain_target(last) == x:
+                    branch[-1] = _loc(ast.Return(value=last.value), last)
+                    changed31 = True
+                elif isinstance(last, ast.If):
+                    sink(last.body)
+                    sink(last.orelse)
+                elif isinstance(last, ast.Try) and not last.finalbody:
+                    # the value of a try whose every way out assigns x
+                    pass
+
+            sink(s.body)
+            sink(s.orelse)
+            if changed31:
+                return [s], 0
         if isinstance(s, ast.If):
             # S1 else hoisting
             if s.orelse and jumps(s.body):
